@@ -19,6 +19,7 @@ type docLine struct {
 	Out  gltffam.Out `json:"out"`
 	XS   XSrc        `json:"xs"`
 	XO   XOut        `json:"xo"`
+	L2   L2Pred      `json:"l2"`
 }
 
 func emptyOut(status, msg, cont string) gltffam.Out {
@@ -35,7 +36,7 @@ func RunOne(c int, d XDesc, kind string) docLine {
 	b := Build(d)
 	cont, again := gltffam.Container(kind)
 	// projected BEFORE any call into the writer: the scene as its owner built it
-	line := docLine{K: "doc", C: c, Tag: d.Tag, Kind: kind, Src: gltffam.ProjectScene(b.Scene), XS: ProjectX(b.Scene), XO: emptyXOut()}
+	line := docLine{K: "doc", C: c, Tag: d.Tag, Kind: kind, Src: gltffam.ProjectScene(b.Scene), XS: ProjectX(b.Scene), XO: emptyXOut(), L2: d.L2}
 	if again {
 		other := "glb"
 		if cont == "glb" {
